@@ -12,8 +12,9 @@
 (*               byte, so at most n of them are ever visited)              *)
 (*   data        length prefix must fit before it is read, then payload    *)
 (* Result [valid, size] + ghosts: hi (upper bound of the offsets read),    *)
-(* steps (number of validate steps), why (what did not fit), short / zf    *)
-(* (classification of the buffer, used only to name mismatch classes).     *)
+(* steps (number of validate steps), why / at (which member did not fit,   *)
+(* and where it starts), short / zf (classification of the buffer, used    *)
+(* only to name mismatch classes).                                         *)
 (*                                                                         *)
 (* The invariants compare the budgeted walk with an independent forward    *)
 (* size computation (StructEnd: saturating end addresses, no budget) and,  *)
@@ -119,9 +120,10 @@ FitsGroupAt(b, st, gli) ==
             cnt \in {TGroupN(b, gli, st.a)}} : TRUE
 
 Result(st, nn) == [done |-> TRUE, valid |-> st.ok, size |-> IF st.ok THEN nn - st.rem ELSE 0,
-                   hi |-> st.hi, steps |-> st.steps, why |-> st.why, short |-> st.short, zf |-> st.zf]
+                   hi |-> st.hi, steps |-> st.steps, why |-> st.why, short |-> st.short, zf |-> st.zf,
+                   at |-> st.a]
 NoRes == [done |-> FALSE, valid |-> FALSE, size |-> 0, hi |-> 0, steps |-> 0, why |-> "",
-          short |-> FALSE, zf |-> FALSE]
+          short |-> FALSE, zf |-> FALSE, at |-> 0]
 
 \* message view at V0
 FitsMsgSt(b, nn) ==
@@ -310,7 +312,7 @@ FitsVector ==
   [kind |-> "fits", msg |-> Msg(MI).name, v0 |-> V0, buf |-> buf,
    view |-> vw.kind, level |-> vw.lvl, name |-> vw.name, ip |-> vw.ip, start |-> vw.ga,
    n |-> n, valid |-> res'.valid, size |-> res'.size, max_steps |-> KK * (n + 1),
-   steps |-> res'.steps, why |-> res'.why, short |-> res'.short, zf |-> res'.zf,
+   steps |-> res'.steps, why |-> res'.why, at |-> res'.at, short |-> res'.short, zf |-> res'.zf,
    cor |-> CorClass, ncls |-> CHOOSE x \in {NClass(e) : e \in {StructEnd(buf, vw)}} : TRUE,
    ops |-> [k \in 1 .. Len(cor) |-> [kind |-> cor[k].kind, off |-> cor[k].off, cls |-> cor[k].cls,
                                      bytes |-> cor[k].bytes]],
